@@ -114,6 +114,21 @@ func c02Clock(c *Ctx) {
 			c.R.SawFunc(name)
 			why, ok := allowed[name]
 			if !ok {
+				// a helper that only the designated functions call (e.g. pinWriteTime extracted from xBegin)
+				roots := map[*ssa.Function]bool{}
+				for an0 := range allowed {
+					for _, f2 := range c.P.RepoFuncs(func(rel string) bool { return rel == "" || rel == "sqlite" }) {
+						if core.FuncName(f2) == an0 && an0 != "s3db.updateTime" {
+							roots[f2] = true
+						}
+					}
+				}
+				if onlyCalledFrom(c, fn, roots, 0) {
+					c.R.OK(rule, name+": reads the clock", c.P.Pos(call.Pos()), "helper only called from a designated place")
+					continue
+				}
+			}
+			if !ok {
 				c.R.Bad(rule, name+": reads the clock", c.P.Pos(call.Pos()), "time.Now() is read outside the three designated places: a second clock next to the statement time silently skews every later comparison")
 				continue
 			}
